@@ -155,7 +155,14 @@ class Script:
             for fn in pending:
                 fn(max(out) if out else 0.0)
             return out
-        if not self.on or kind == "echo" or ph is None or ph not in self.plan or target == "sim":
+        if self.on and kind == "echo" and ph is not None and self.plan.get(ph, {}).get("kind") == "echo_lost":
+            # the sender's own stick does not hear its frame back (collision on the air): the frame still reaches
+            # the peer; the sender re-transmits and, with every echo lost, its send fails
+            n = self.seen.get("echo" + ph + target, 0)
+            self.seen["echo" + ph + target] = n + 1
+            self.applied.append(f"{ph}:echo_lost")
+            return [] if n < self.plan[ph].get("times", 99) else self.in_order(target, [base])
+        if not self.on or kind == "echo" or ph is None or ph not in self.plan or target == "sim" or self.plan[ph]["kind"] == "echo_lost":
             return self.in_order(target, [base])
         p = self.plan[ph]
         n = self.seen.get(ph + target, 0)
@@ -187,6 +194,7 @@ def plan_script(rng, script: Script, systematic: int | None, n_phases: int) -> d
         [{"kind": "copies", "n": n, "gap": g} for n in (2, 3) for g in (0.0, 0.02, 0.1)]
         + [{"kind": "delay", "secs": s} for s in (0.5, 2.9, 3.1, 4.9, 5.2, 6.0)]
         + [{"kind": "lost", "times": t} for t in (1, 99)]
+        + [{"kind": "echo_lost", "times": t} for t in (1, 99)]
     )
     if systematic is not None:
         ph = phases[systematic % len(phases)]
@@ -200,7 +208,7 @@ def plan_script(rng, script: Script, systematic: int | None, n_phases: int) -> d
 
 def benign(script: Script) -> bool:
     """Clause (1) applies: nothing is lost to the peer and nothing arrives late."""
-    return all(p["kind"] == "copies" or (p["kind"] == "delay" and p["secs"] < 2.5) for p in script.plan.values())
+    return all(p["kind"] == "copies" or (p["kind"] == "delay" and p["secs"] < 2.5) or (p["kind"] == "echo_lost" and p["times"] == 1) for p in script.plan.values())
 
 
 async def attempt(loop, ctx, flow: dict[str, Any], resp, supp, air, script: Script, rng, third_party: bool, stagger: float) -> dict[str, Any]:
